@@ -1899,8 +1899,10 @@ mod trait_handlers;
 
 use std::collections::HashMap;
 
+#[cfg(not(magiclen_educe_verif))]
 use proc_macro::TokenStream;
 use supported_traits::Trait;
+#[cfg_attr(magiclen_educe_verif, allow(unused_imports))]
 use syn::{
     parse::{Parse, ParseStream},
     parse_macro_input,
@@ -2115,6 +2117,14 @@ fn derive_input_handler(ast: DeriveInput) -> syn::Result<proc_macro2::TokenStrea
     Ok(token_stream)
 }
 
+/// Verification hook: the derive entry point over `proc_macro2` tokens, so that the crate can be
+/// compiled as an ordinary library and driven in-process.
+#[cfg(magiclen_educe_verif)]
+pub fn derive_input_handler_verif(ast: DeriveInput) -> syn::Result<proc_macro2::TokenStream> {
+    derive_input_handler(ast)
+}
+
+#[cfg(not(magiclen_educe_verif))]
 #[proc_macro_derive(Educe, attributes(educe))]
 pub fn educe_derive(input: TokenStream) -> TokenStream {
     struct MyDeriveInput(proc_macro2::TokenStream);
